@@ -381,6 +381,9 @@ def run(ctx):
             if callers and all((c.path in guarded or c.path in allowed_fns) for c in callers):
                 r11.site("%s %s %s in helper %s (called only from %s)" % (where, op, item, root_fn.path, sorted({c.path for c in callers})))
                 continue
+            if item.startswith("I:") and item not in ctx.N.role_items():
+                r11.site("%s %s %s in %s: an item no property speaks about (not privileged state)" % (where, op, item, root_fn.path))
+                continue
             r11.fail("C14.R11:unprivileged-write:%s:%s" % (root_fn.path, item), root_fn.path, where,
                      "storage write %s %s outside instantiate/reply/migrate and outside any guarded handler" % (op, item))
 
